@@ -347,10 +347,11 @@ def sprintf : Bytes → List Bytes → Option Bytes
   | [37], _ => none
   | b :: rest, args => (sprintf rest args).map (b :: ·)
 
-def fmtWith (f : String × List String) (env : String → Option Bytes) : Option Bytes :=
-  match f.2.mapM env with
+/-- One `Fprintf`: format bytes, argument codes (indices into `env`). -/
+def fmtWith (f : Bytes × List Nat) (env : List Bytes) : Option Bytes :=
+  match f.2.mapM (fun i => env[i]?) with
   | none => none
-  | some args => sprintf f.1.toUTF8.toList args
+  | some args => sprintf f.1 args
 
 def tagByte : Tag → UInt8
   | .ctx => Gen.Diff.tagCtx
@@ -359,19 +360,13 @@ def tagByte : Tag → UInt8
 
 def renderBody (b : List (Tag × Bytes)) : Bytes := b.flatMap fun p => tagByte p.1 :: p.2
 
+/-- `fmt.Fprintf(&out, "@@ -%d,%d +%d,%d @@\n", chunk.x, count.x, chunk.y, count.y)` and the lines. -/
 def renderHunk (h : Hunk Bytes) : Option Bytes :=
-  (fmtWith Gen.Diff.fmtHunk fun
-    | "chunk.x" => some (fmtInt h.hx)
-    | "count.x" => some (fmtInt h.cx)
-    | "chunk.y" => some (fmtInt h.hy)
-    | "count.y" => some (fmtInt h.cy)
-    | _ => none).map (· ++ renderBody h.body)
+  (fmtWith Gen.Diff.fmtHunk [fmtInt h.hx, fmtInt h.cx, fmtInt h.hy, fmtInt h.cy]).map (· ++ renderBody h.body)
 
+/-- the `diff`, `---`, `+++` lines -/
 def renderHeader (oldName newName : Bytes) : Option Bytes :=
-  (Gen.Diff.fmtHeader.mapM fun f => fmtWith f fun
-    | "oldName" => some oldName
-    | "newName" => some newName
-    | _ => none).map List.flatten
+  (Gen.Diff.fmtHeader.mapM fun f => fmtWith f [oldName, newName]).map List.flatten
 
 def render (oldName newName : Bytes) (hs : List (Hunk Bytes)) : Option Bytes :=
   match renderHeader oldName newName, hs.mapM renderHunk with
